@@ -604,7 +604,15 @@ func unset(parent, child trienode.Node, key *Path, pos uint8, removeLeft bool) e
 		cld.Flags = trienode.NewNodeFlag()
 		return unset(cld, cld.Child, key, pos+cld.Path.Len(), removeLeft)
 
-	case nil, *trienode.HashNode, *trienode.ValueNode:
+	case *trienode.ValueNode:
+		// The leaf of the boundary key itself, hanging directly off a binary node (an edge-node parent is
+		// handled by the caller). It must be removed like every other in-range reference, otherwise a
+		// list that leaves the boundary key out still reproduces the root.
+		if p, ok := parent.(*trienode.BinaryNode); ok && pos > 0 {
+			p.Children[key.Bit(pos-1)] = nil
+		}
+		return nil
+	case nil, *trienode.HashNode:
 		// Child is nil, nothing to unset
 		return nil
 	default:
